@@ -799,8 +799,11 @@ impl crate::graphrun::Target for GraphTarget {
         if got_phase != want_phase {
             tags.push("C02:phase-order".to_string());
         }
+        // the phase counter means something in the timed phases only (what it holds while sustaining
+        // or at rest is the implementation's business)
         let acc = a.verif_phase_bits();
-        if (acc >> GSHIFT) as i64 != p[1].as_i64().unwrap() || acc & ((1 << GSHIFT) - 1) != 0 {
+        let timed = want_phase == 1 || want_phase == 2 || want_phase == 4;
+        if timed && ((acc >> GSHIFT) as i64 != p[1].as_i64().unwrap() || acc & ((1 << GSHIFT) - 1) != 0) {
             tags.push("C02:position".to_string());
         }
         if op["op"] == "tick" {
